@@ -24,7 +24,7 @@ from ..kernel import Discard, EventLog, InjectedFault, Streams, Violation, close
 PROP = "C10"
 
 EVIDENCE = {
-    "probes_expected": ["condensed-vs-explicit-compared", "restart-dropped-state", "recreated-body-compared", "matrix-after-evaluate-compared", "unrelated-dual-field-created-before", "uniform-knob-compared", "uniform-knob-assembly-compared", "planestrain-slab-compared", "axisymmetric-energy-compared", "axisymmetric-stress-reused", "kinematics-buffers-checked", "fault:solver_inexact", "distorted-mesh"],
+    "probes_expected": ["condensed-vs-explicit-compared", "restart-dropped-state", "recreated-body-compared", "matrix-after-evaluate-compared", "unrelated-dual-field-created-before", "uniform-knob-compared", "uniform-knob-assembly-compared", "planestrain-slab-compared", "axisymmetric-energy-compared", "axisymmetric-stress-reused", "kinematics-buffers-checked", "recovery-after-nonfinite-iterate", "fault:solver_inexact", "distorted-mesh"],
     "clauses_sampled_only": [
         "plane strain vs unit-thickness slab (in-plane forces and stiffness) is a pure function of the state; evaluated at the converged states the histories reach",
         "axisymmetric nodal forces = derivative of the 2 pi R weighted strain energy: pure; evaluated by central differences of the energy at the reached states. Convergence of the axisymmetric model to a revolved 3D model is not attempted",
@@ -186,6 +186,22 @@ def run_condensed(doc, log):
     if not ok:
         raise Violation(PROP, "condensed-vs-explicit", f"matrix of a body created on the converged displacement field differs from the settled body's (rel {rel:.2e})", site="SolidBodyNearlyIncompressible.recreated.matrix", fault=fkd)
     log.count("recreated-body-compared")
+    # a diverged (non-finite) iterate seen by the fresh body, then the converged displacements again:
+    # the condensed state recovers (same pressures / volume ratios as the explicit formulation)
+    good = field3[0].values.copy()
+    field3[0].values = np.full_like(good, np.nan)  # (new arrays: a fresh body's stored displacements alias the field's array)
+    with np.errstate(all="ignore"):
+        fresh.assemble.vector(field=field3)
+    field3[0].values = good.copy()
+    with np.errstate(all="ignore"):
+        rr = fresh.assemble.vector(field=field3).toarray()  # the very first evaluation must be finite again
+        fresh.assemble.vector(field=field3)
+    if not (np.all(np.isfinite(rr)) and np.all(np.isfinite(fresh.results.state.p)) and np.all(np.isfinite(fresh.results.state.J))):
+        raise Violation(PROP, "condensed-vs-explicit", "after one non-finite iterate the condensed body stays non-finite at the (restored) converged displacements", site="SolidBodyNearlyIncompressible.recovery", fault=fkd)
+    d = float(np.abs(fresh.results.state.p - p2).max())
+    if d > 50 * conv_tol(doc, pj_scale) + 1e-9:
+        raise Violation(PROP, "condensed-vs-explicit", f"after one non-finite iterate and the restored displacements the cell pressures differ from the explicit formulation by {d:.3e}", site="SolidBodyNearlyIncompressible.recovery.p", fault=fkd)
+    log.count("recovery-after-nonfinite-iterate")
     # the live body moved to an earlier state through the evaluate.* API (post-processing), then
     # asked for its matrix without a field: same matrix as a cold body brought there by vector(field)
     if len(eng.callbacks) >= 2:
